@@ -13,7 +13,7 @@ from .run import trace_inputs
 
 VERIF = os.path.dirname(os.path.dirname(os.path.abspath(__file__)))
 REPO = os.environ.get('VERIF_REPO', '/repo')
-OUT = os.path.join(VERIF, 'replay', 'out')
+OUT = os.path.join(VERIF, 'replay', 'out' + os.environ.get('VERIF_SUBDIR', ''))
 
 CXX = ('g++ -std=c++17 -O1 -DHAVE_CONFIG_H=1 -I{repo} -I{repo}/_build -I{repo}/_build/include -I/usr/include/cjson '
        '-isystem /root/miniconda/include -fopenmp -w')
@@ -37,7 +37,7 @@ def build_driver(prop, unit):
         src = os.path.join(VERIF, 'replay', 'drivers', '%s_%s.cpp' % (prop, re.sub(r'\d+$', '', unit)))
     if not os.path.exists(src):
         return None, 'no native driver for unit %s' % unit
-    exe = os.path.join(VERIF, '.work', prop, 'replay_%s' % unit)
+    exe = os.path.join(VERIF, '.work', prop + os.environ.get('VERIF_SUBDIR', ''), 'replay_%s' % unit)
     os.makedirs(os.path.dirname(exe), exist_ok=True)
     # the translation units under test are compiled from /repo's CURRENT sources and take precedence over
     # the baseline library, which only supplies everything else
